@@ -24,6 +24,9 @@ type NCDriver struct {
 	count map[string]int
 	// OnEdit is called for every accepted edit-config (device front end hook).
 	OnEdit func(target, doc string) error
+	// OnCommit / OnDiscard: device front end hooks (the candidate is applied / dropped).
+	OnCommit  func() error
+	OnDiscard func()
 	// GetConfigFn serves get-config.
 	GetConfigFn func(source, filter string) (*etree.Document, error)
 	Logf        func(string, ...any)
@@ -140,6 +143,9 @@ func (d *NCDriver) Commit() error {
 	}
 	d.Running = append(d.Running, d.Pending...)
 	d.Pending = nil
+	if d.OnCommit != nil {
+		return d.OnCommit()
+	}
 	return nil
 }
 
@@ -149,6 +155,9 @@ func (d *NCDriver) Discard() error {
 		return err
 	}
 	d.Pending = nil
+	if d.OnDiscard != nil {
+		d.OnDiscard()
+	}
 	return nil
 }
 
